@@ -654,7 +654,12 @@ pub fn exec(ctx: &mut Ctx, t: &mut Toks) -> String {
             return format!("SAME {}", la.len());
         }
         let i = la.iter().zip(lb.iter()).position(|(x, y)| x != y).unwrap_or(la.len().min(lb.len()));
-        return format!("DIFF {} {} {}", i, la.get(i).cloned().unwrap_or("-".into()).replace(' ', "_"), lb.get(i).cloned().unwrap_or("-".into()).replace(' ', "_"));
+        // track ids come from one counter shared by all scenes: a tie resolved in another scene shifts the ids of this one;
+        // report whether the logs agree up to the renaming of ids as well
+        let ga = slots.slots.get(a).and_then(|c| c.log.get(&scene).cloned()).unwrap_or_default();
+        let gb = slots.slots.get(b).and_then(|c| c.log.get(&scene).cloned()).unwrap_or_default();
+        return format!("DIFF {} {} {} {}", i, la.get(i).cloned().unwrap_or("-".into()).replace(' ', "_"), lb.get(i).cloned().unwrap_or("-".into()).replace(' ', "_"),
+            if ga == gb { "GSAME" } else { "GDIFF" });
     }
     let cur = slots.cur;
     let c = &mut slots.slots[cur];
